@@ -1132,8 +1132,10 @@ Token:
         if p.recovery && argDiags.HasErrors() {
             // if there was a parse error in the argument then we've
             // probably been left in a weird place in the token stream,
-            // so we'll bail out with a partial argument list.
-            p.recover(TokenCParen)
+            // so we'll bail out with a partial argument list. The token
+            // recovery stopped at (the closing parenthesis, or EOF) ends
+            // the call, so that its source range covers its arguments.
+            closeTok = p.recover(TokenCParen)
             break Token
         }
 
